@@ -83,6 +83,7 @@ var modules = []Module{
 				Ext: map[string]string{"GetDeputiesCount": "nodeCount"}},
 			{Pkg: "chain/consensus", Name: "GetCorrectMiner", Lean: "GetCorrectMiner",
 				Ext: map[string]string{"GetDeputiesCount": "nodeCount"}, StopAt: "GetDeputyByDistance"},
+			{Pkg: "chain/miner", Recv: "Miner", Name: "getSleepTime", Lean: "getSleepTime"},
 		},
 		Exprs: []ExprSpec{
 			{Pkg: "chain/deputynode", Recv: "Manager", Func: "GetDeputyByDistance", Kind: "assign", LHS: "targetIndex", Nth: 0, Lean: "byDistanceRewardIndex"},
@@ -215,6 +216,15 @@ type tr struct {
 	hasRes bool              // result uses GoRes
 	nres   int
 	resErr bool
+}
+
+func (g *genFn) hasParam(n string) bool {
+	for _, p := range g.params {
+		if p.name == n {
+			return true
+		}
+	}
+	return false
 }
 
 type genFn struct {
@@ -421,6 +431,9 @@ func (t *tr) expr(e ast.Expr) (string, lty) {
 				}
 				var args []string
 				for i, a := range x.Args {
+					if !g.hasParam(g.formal[i]) {
+						continue // pointer/struct formal of the callee: only its field chains are parameters
+					}
 					s, _ := t.expr(a)
 					args = append(args, fmt.Sprintf("(%s := %s)", g.formal[i], s))
 				}
@@ -675,6 +688,24 @@ func (t *tr) block(stmts []ast.Stmt, k string, ind string) string {
 						}
 						k2 := t.block(stmts[2:], k, ind+"  ")
 						return fmt.Sprintf("match (%s %s) with\n%s| .panic => .panic\n%s| .err e => .err e\n%s| .ok %s =>\n%s  %s", g.lean, strings.Join(args, " "), ind, ind, ind, sanitize(v.Name), ind, k2)
+					}
+				}
+			}
+		}
+		if len(x.Rhs) == 1 && len(x.Lhs) > 1 {
+			if c, ok := x.Rhs[0].(*ast.CallExpr); ok {
+				if obj := t.calleeObj(c.Fun); obj != nil && obj.Pkg() != nil {
+					if g, ok := t.fnObj[obj.Pkg().Path()+"."+obj.Name()]; ok && !g.useRes {
+						call, _ := t.expr(c)
+						var names []string
+						for _, l := range x.Lhs {
+							id := l.(*ast.Ident)
+							if o := t.info.Defs[id]; o != nil {
+								t.locals[o] = sanitize(id.Name)
+							}
+							names = append(names, sanitize(id.Name))
+						}
+						return fmt.Sprintf("let (%s) := %s\n%s", strings.Join(names, ", "), call, ind) + rest()
 					}
 				}
 			}
